@@ -71,7 +71,6 @@ MemberDiff(mb) ==
   ELSE IF mb.disk.lines # ExpLines(mb) THEN "data_csv"
   ELSE IF mb.disk.unmatched # mb.mem.unmatched THEN "unmatched_csv"
   ELSE IF mb.disk.man.valid # mb.mem.valid THEN "manifest_valid"
-  ELSE IF mb.disk.man.error_count # Len(mb.mem.errLines) THEN "manifest_error_count"
   ELSE IF mb.disk.man.fps # mb.disk.hashes THEN "manifest_file_fingerprints"
   ELSE "ok"
 \* completed: the member reached the last line of its scan (true only for a member that finished)
